@@ -12,6 +12,7 @@ import (
 	crand "crypto/rand"
 	"fmt"
 	"math/big"
+	"runtime"
 
 	"gitlab.com/yawning/secp256k1-voi/secec"
 	"gitlab.com/yawning/secp256k1-voi/secec/bitcoin"
@@ -399,6 +400,54 @@ func main() {
 		if err == nil || k != nil {
 			R.Fail("derive/invalid private key accepted", "misc", map[string]any{"bytes": mc.Hex(b)}, nil)
 		}
+	}
+	// key objects the caller drops right after the call, long messages, and a collector running all the time: the
+	// signature is still the function of (key, aux, message) - nothing tied to the key object's lifetime (a finalizer
+	// wiping the scalar, memory handed back early) may act while the call is in progress
+	{
+		stop := make(chan struct{})
+		for g := 0; g < 2; g++ {
+			go func() {
+				for {
+					select {
+					case <-stop:
+						return
+					default:
+						runtime.GC()
+					}
+				}
+			}()
+		}
+		long := make([]byte, 1<<20)
+		for i := range long {
+			long[i] = byte(i * 7)
+		}
+		nGC := 120
+		for i := 0; i < nGC; i++ {
+			d := ds[i%len(ds)]
+			long[0] = byte(i)
+			want, ok := ref.BIP340Sign(d, auxs[2], long)
+			if !ok {
+				continue
+			}
+			R.T(1)
+			var sig []byte
+			var err error
+			func() { // the key is reachable from nowhere but the call itself
+				k, kerr := mkSK(d, i%2)
+				if kerr != nil {
+					err = kerr
+					return
+				}
+				sig, err = k.Sign(mc.Script{Src: "hex:" + mc.Hex(auxs[2]), Mode: "full", FailAfter: -1}.New(), long, nil)
+			}()
+			if err != nil || !bytes.Equal(sig, want) {
+				R.Fail("sign/dropped key object under garbage collection", "misc", map[string]any{"d": mc.HexBig(d), "message": "1 MiB pattern", "what": fmt.Sprintf("Sign on a key object that is unreachable after the call, with the collector running: err=%v, signature equals BIP-340 Sign = %v", err, bytes.Equal(sig, want))}, nil)
+				break
+			}
+		}
+		close(stop)
+		R.Class("sign/dropped key objects under garbage collection", int64(nGC))
 	}
 	R.Expect("sign/public key y odd=0, nonce point y odd=0", "sign/public key y odd=0, nonce point y odd=1", "sign/public key y odd=1, nonce point y odd=0", "sign/public key y odd=1, nonce point y odd=1",
 		"derive/private key with public y odd=0", "derive/private key with public y odd=1", "derive/point with y odd=0", "derive/point with y odd=1")
